@@ -1097,6 +1097,20 @@ impl<'a> RepositoryUpdate<'a> {
             }
         }
 
+        // The deltas to apply must follow each other without a gap (or a
+        // repeated serial). Otherwise applying them would silently skip
+        // changes while the repository is recorded as up-to-date.
+        let mut expected = Some(serial);
+        for delta in deltas {
+            if Some(delta.serial()) != expected {
+                self.log.debug(format_args!(
+                    "Gap in delta list before serial {}.", delta.serial()
+                ));
+                return Err(SnapshotReason::BadDeltaSet)
+            }
+            expected = delta.serial().checked_add(1);
+        }
+
         if deltas.len() > self.collector.config.max_delta_count {
             self.log.debug(format_args!(
                 "Too many delta steps required ({})", deltas.len()
